@@ -91,8 +91,12 @@ def blocks_equal(model_blocks: list, got: list) -> str | None:
     """None when the observed write_block sequence matches the prediction (offset None = unjudged offset), also when the same
     bytes at the same offsets in the same order are merely cut into calls differently."""
     strict = _blocks_equal_strict(model_blocks, got)
-    if strict is None or any(o is None for o, _ in model_blocks):
-        return strict
+    if strict is None:
+        return None
+    if any(o is None for o, _ in model_blocks):
+        # some predicted block has no judged offset: the same bytes in the same order, every judged block starting where predicted,
+        # no gap inside a predicted block - however the calls are cut
+        return None if _same_stream(model_blocks, got) else strict
     if _blocks_equal_strict(_coalesce(model_blocks), _coalesce(got)) is None:
         return None
     # the calls may also come in another order as long as every byte of the output ends up the same (the order matters where blocks overlap,
@@ -100,6 +104,33 @@ def blocks_equal(model_blocks: list, got: list) -> str | None:
     if same_image(model_blocks, got):
         return None
     return strict
+
+
+def _same_stream(model_blocks: list, got: list) -> bool:
+    mb = [(o, bytes(b)) for o, b in model_blocks if len(b)]
+    gb = [(o, bytes(b)) for o, b in got if len(b)]
+    if b"".join(b for _, b in mb) != b"".join(b for _, b in gb):
+        return False
+    starts, pos = [], 0
+    for o, b in gb:
+        starts.append((pos, o, len(b)))
+        pos += len(b)
+
+    def offset_at(i: int):
+        for st, o, ln in starts:
+            if st <= i < st + ln:
+                return o + (i - st)
+        return None
+
+    i = 0
+    for o, b in mb:
+        first = offset_at(i)
+        if o is not None and first != o:
+            return False
+        if first is not None and offset_at(i + len(b) - 1) != first + len(b) - 1:
+            return False          # a gap or a jump inside one predicted block
+        i += len(b)
+    return True
 
 
 def same_image(a: list, b: list) -> bool:
@@ -185,8 +216,12 @@ def conservation(events: list, blocks: list) -> tuple[str | None, dict]:
             if eo != go:
                 return f"run {i} written at file offset {go:#x} but the address it was assembled for maps to {eo:#x}", stats
         return None, stats
-    if len(expected) != len(blocks):
-        return f"nodes produced {len(expected)} non-empty run(s) between position moves, the writer received {len(blocks)} block(s)", stats
+    if len(expected) != len(got):
+        # some run has no known offset (it follows a move whose target has none): the bytes must still arrive once each, in order
+        if b"".join(eb for _, eb in expected) == b"".join(gb for _, gb in got):
+            return None, stats
+        return f"nodes produced {len(expected)} non-empty run(s) between position moves, the writer received {len(got)} block(s) with other bytes", stats
+    blocks = got
     for i, ((eo, eb), (go, gb)) in enumerate(zip(expected, blocks)):
         if bytes(gb) != eb:
             return f"block {i}: the writer received {len(gb)} byte(s) {bytes(gb[:12]).hex()}.., the nodes produced {len(eb)} byte(s) {eb[:12].hex()}..", stats
